@@ -169,7 +169,9 @@ prop("C14", WORLD,
       run("reattach-allowed", "harnessC15", ["reattached", "refused-protocol"], files=["prims.go", "c15.go"],
           quick={"bound": "reattach half of the matrix: Reattach.Protocol in {\"\", netrpc, grpc} x AllowedProtocols in three lists x Test flag"}),
       run("shared-config", "harnessSharedConfig", ["first-launch", "second-launch"], files=WORLD,
-          quick={"bound": "one *ClientConfig used for two launches (RunnerFunc; net/rpc or gRPC; AutoMTLS on or off): the first plugin serves only version 1 (offered through VersionedPlugins), the second only version 2 (offered through the legacy ProtocolVersion+Plugins pair); each launch: Start, Client, Dispense, call, Kill; checked per launch: negotiated version and plugin set, client-certificate variable, size of the host's trust pool"})],
+          quick={"bound": "one *ClientConfig used for two launches (RunnerFunc; net/rpc or gRPC; AutoMTLS on or off): the first plugin serves only version 1 (offered through VersionedPlugins), the second only version 2 (offered through the legacy ProtocolVersion+Plugins pair); each launch: Start, Client, Dispense, call, Kill; checked per launch: negotiated version and plugin set, client-certificate variable, size of the host's trust pool"}),
+      run("brokered-callbacks", "harnessC18world", ["host-serves", "plugin-serves", "automtls"], files=WORLD,
+          quick={"params": {"trace": 0, "as": 14}, "bound": "C18's life-cycle run read for C14: brokered servers on the host (called back by the plugin) and on the plugin (called by the host) over gRPC, with and without multiplexing, plain or AutoMTLS, both launch methods"})],
      WORLD_ASSUME, WORLD_STUBS,
      "brokered callbacks and large responses inside the matrix run (brokers are C06-C08's subject); SecureConfig (C13); reattach to a composed plugin (C15)",
      text="Bounded symbolic model checking of the host's real Start/Client/Dispense/Ping/Kill composed with the plugin's real Serve in one run over the cross product of protocol, allowed list, transport security, launch method and multiplexing: compatible configurations work end to end, an announced protocol outside the allowed list is refused at start and the plugin terminated (also for legacy handshake lines and for reattach), a multiplexing request to a plugin that does not advertise it fails with the dedicated error, a transport-security mismatch surfaces as an error on first use, unknown plugin names are errors; never a hang or a panic.",
@@ -211,8 +213,11 @@ YAMUX = "yamux model: a session is a pair of FIFO queues of streams; Open enqueu
 prop("C18", ["prims.go", "m_print.go", "c18.go"],
      [run("lifecycle", "harnessC18", ["mux", "no-mux"],
           quick={"bound": "plugin side, gRPC, multiplexing on/off, no brokered listeners: a whole life cycle Serve -> host connects -> controller Shutdown -> Serve returns, against the ghost file system"}),
-      run("world", "harnessC18world", ["dispensed", "host-serves", "plugin-serves", "two-plugin-servers", "host-listener-left-open", "rpc-callback", "closed-before-kill", "two-plugin-servers-one-id", "plugin-server-factory-in-progress", "other-namespace", "unix-socket-config", "clean"], files=WORLD,
-          quick={"params": {"trace": 0, "as": 18}, "bound": "host x plugin composed, net/rpc, gRPC and gRPC+mux, both launch methods (a custom runner optionally with the plugin in another file-system namespace - only the runner's socket directory shared - and UnixSocketConfig given or nil); history: dispense and call; optionally a brokered server on the host dialled and called by the plugin; optionally one or two brokered servers on the plugin (on two IDs, or one after the other on the same ID with the first still serving), each dialled and called by the host; optionally a brokered server on the plugin whose factory is still running when the shutdown arrives; optionally a host-side brokered listener still open at Kill (custom runner); then either Kill, or the protocol client closed first, three seconds (the plugin exits and the exit is recorded) and then Kill; then six seconds"})],
+      run("shutdown-order", "harnessC18shutdownOrder", ["brokered-server-established", "graceful"], dpor=True, files=WORLD,
+          quick={"max_reversals": 1, "bound": "gRPC without multiplexing, exec.Cmd launch, one brokered server established on the plugin and used, then Kill: all schedules with <= 1 reversal; the plugin process's death is an operation that conflicts with everything its goroutines still had to do to the file system"},
+          thorough={"max_reversals": 2, "max_wall_s": 1500, "bound": "as quick with <= 2 reversals (9 817 schedules, 25 s when measured)"}),
+      run("world", "harnessC18world", ["dispensed", "host-serves", "plugin-serves", "two-plugin-servers", "host-listener-left-open", "rpc-callback", "closed-before-kill", "two-plugin-servers-one-id", "plugin-server-factory-in-progress", "other-namespace", "unix-socket-config", "automtls", "clean"], files=WORLD,
+          quick={"params": {"trace": 0, "as": 18}, "bound": "host x plugin composed, net/rpc, gRPC and gRPC+mux, plain or AutoMTLS (gRPC), both launch methods (a custom runner optionally with the plugin in another file-system namespace - only the runner's socket directory shared - and UnixSocketConfig given or nil); history: dispense and call; optionally a brokered server on the host dialled and called by the plugin; optionally one or two brokered servers on the plugin (on two IDs, or one after the other on the same ID with the first still serving), each dialled and called by the host; optionally a brokered server on the plugin whose factory is still running when the shutdown arrives; optionally a host-side brokered listener still open at Kill (custom runner); then either Kill, or the protocol client closed first, three seconds (the plugin exits and the exit is recorded) and then Kill; then six seconds"})],
      [GHOSTFS, GRPCSEAM, YAMUX, EXIT] + WORLD_ASSUME,
      WORLD_STUBS,
      "histories with more than one brokered connection per direction; stdio traffic; goroutines inside gRPC and yamux (delegated)",
@@ -311,8 +316,8 @@ prop("C11", ["prims.go", "c11.go"],
           quick={"bound": "gRPC seam: the plugin writes one chunk to one stream and closes it (EOF), writes a chunk to the other and two seconds later another; canonical schedule"}),
       run("large-write", "harnessC11large", ["one-chunk", "several-chunks", "beyond-bufio-buffer"],
           quick={"bound": "gRPC seam: one stdout write of symbolic length 1..5000 (either side of the 1 KiB chunk and of bufio's 4 KiB buffer) followed by a short one; bufio.Reader modelled with its read-ahead buffer; canonical schedule"}),
-      run("composed", "harnessC11world", ["delivered", "written-before-attach"], files=WORLD,
-          quick={"bound": "host x plugin composed, net/rpc, gRPC and gRPC+mux, both launch methods: the plugin writes two stdout chunks and one stderr chunk (arbitrary contents, symbolic length 1..1024) to its process streams after serving began, before or after the host attached; what SyncStdout/SyncStderr received is compared with what was written"}),
+      run("composed", "harnessC11world", ["delivered", "written-before-attach", "late-output"], files=WORLD,
+          quick={"bound": "host x plugin composed, net/rpc, gRPC and gRPC+mux, both launch methods: the plugin writes two stdout chunks and one stderr chunk (arbitrary contents, symbolic length 1..1024) to its process streams after serving began, before or after the host attached, and one more stdout chunk thirty seconds later; what SyncStdout/SyncStderr received is compared with what was written"}),
       run("second-host", "harnessC11secondHost", ["written-while-detached", "delivered-to-second-host"], files=WORLD,
           quick={"bound": "gRPC plugin launched through exec.Cmd: a first host attaches and receives a chunk; its connection goes away with the plugin left running; the plugin writes a stdout and a stderr chunk while nobody is attached; a second host reattaches (real ReattachConfig / reattach) and the plugin writes again; chunks of symbolic content, length 1..1024; canonical schedule"})],
      ["bufio.Reader.Read returns 1..len(p) bytes (a view over the source's next bytes)", "stream model whose Send reads the message bytes at call time (marshalling)"] + WORLD_ASSUME, ["bufio.Reader.Read", "generated stdio stream"] + WORLD_STUBS,
